@@ -21,7 +21,7 @@ CHECKS = [
     check("C24", "cache_conc", "exploration",
           "Seeded search over interleavings of 2-4 simulated generator processes (real main.execute, real pickle/pathlib/tmpfs) "
           "sharing the cache directory, with process crashes at every file-system step incl. torn writes at arbitrary bytes, "
-          "injected errnos, short reads/writes; oracle = every surviving run and two later fresh runs per model equal the "
+          "injected errnos, short reads/writes, processes whose PIDs collide (separate PID namespaces on a shared volume); oracle = every surviving run and two later fresh runs per model equal the "
           "uncached reference. Sampling, not enumeration: a clean batch is evidence, not proof.",
           "Trusted: the simulator kernel (baton-passed threads as processes, effect suppression after a crash), real tmpfs rename "
           "atomicity; fault model is process crash, not power loss.",
@@ -37,15 +37,17 @@ CHECKS = [
           "DESIGN.md section 2 (C23)"),
     check("C22", "determinism", "exploration",
           "Every corpus case (model incl. rejected ones, snippets variant, target) and aas_core_meta.v3 is executed in several "
-          "fresh interpreters that differ in PYTHONHASHSEED, heap layout, directory listing order (scandir seam), output-dir "
-          "location and history and position in the process; rc, stdout up to the output path, stderr and the hashes of all "
+          "fresh interpreters that differ in PYTHONHASHSEED, heap layout incl. scrambled allocator free lists, directory listing order "
+          "(scandir seam), output-dir location (also beneath the snippets dir) and history (absent, empty, foreign, same-named files that "
+          "are longer / identical / equal up to line endings / binary) and position in the process; rc, stdout up to the output path, stderr and the hashes of all "
           "written files must agree.",
           "Trusted: each child interpreter is a pure function of its spec (self-tested); only the listed nondeterminism sources are varied.",
           "deterministic simulation: every nondeterminism source behind a seeded seam, differential comparison across seeded child interpreters",
           "DESIGN.md section 2 (C22)"),
     check("C25", "snippets", "exploration",
           "Seeded directory trees (valid/invalid/unicode/newline/non-UTF-8 names, hidden entries, empty dirs, whitespace, invalid "
-          "UTF-8) on the sandboxed file system, listed in seeded orders; read_from_directory and main.execute are compared with a "
+          "UTF-8) on the sandboxed file system, at seeded locations (plain, hidden ancestors, symlink, relative, '..'), listed in seeded "
+          "orders; read_from_directory and main.execute are compared with a "
           "dict computed from the tree spec.",
           "Trusted: validity of a key is the repository's own IMPLEMENTATION_KEY_RE; cases on which the statement is silent (files "
           "below hidden dirs, CR, BOM, exotic whitespace, symlinks) are not generated.",
@@ -61,14 +63,15 @@ CHECKS = [
           "DESIGN.md section 2 (C26)"),
     check("C02", "iofault_c02", "fault_enumeration",
           "I/O-fault slice only: every mkdir/open/write/close inside the output directory of a recorded run is failed with every "
-          "applicable errno (exhaustive single faults on small common models, seeded double/state faults, samples on the rest of "
+          "applicable errno, transient and persistent (exhaustive single faults on small common models; seeded double faults, state "
+          "faults such as stale binary files or a directory in the way, unusual directory layouts; samples on the rest of "
           "the corpus and aas_core_meta.v3); no exception may escape main.execute. Whether generators crash on meta-models outside "
           "the corpus (the pure-input part of C02) is NOT decided.",
           "Only faults at operations of <target>/main.py:execute inside the output directory; smoke tool and pure-input crashes are out of scope of this technique.",
           "deterministic fault injection: exhaustive single-fault enumeration at the raw-file / os.mkdir seams of a recorded run",
           "DESIGN.md section 3 (C02/C03)"),
     check("C03", "iofault_c03", "fault_enumeration",
-          "I/O-fault slice only: under the same enumerated disk faults the run must keep rc == 0 iff stderr empty, rc 0 implies the "
+          "I/O-fault slice only: under the same enumerated disk faults (transient and persistent), state faults and directory layouts the run must keep rc == 0 iff stderr empty, rc 0 implies the "
           "Code-generated line and an output tree identical to the fault-free run, rc != 0 implies a non-empty report whose first "
           "bullet follows a headline ending in ':'; benign conditions (short writes, stale longer files) must end in rc 0. The "
           "report-shape clause in general and 'no error is dropped' are NOT decided.",
@@ -76,11 +79,12 @@ CHECKS = [
           "deterministic fault injection: exhaustive single-fault enumeration at the raw-file / os.mkdir seams of a recorded run",
           "DESIGN.md section 3 (C02/C03)"),
     check("C10", "xmlstream", "exploration",
-          "XML-stream slice only: instances of generated+imported Python SDKs are written and read back whole and through from_stream "
-          "under seeded short reads; labelled mistyped documents must get the same verdict whole and chunked and only "
+          "XML-stream slice only: instances of generated+imported Python SDKs (23 small corpus models incl. variants with exotic "
+          "enumeration values, two cross-reference models of /verif, aas_core_meta.v3) are written and read back whole, through "
+          "from_stream under seeded short reads and through from_file under short raw reads; labelled mistyped documents must get the same verdict whole and chunked and only "
           "DeserializationException; corrupted documents only DeserializationException/ParseError. JSON round trip as fault-free "
           "baseline. Other SDK languages and meta-models outside the corpus are NOT decided.",
-          "Only the 23 corpus models for which the python target yields an importable SDK; ParseError accepted for not well-formed input.",
+          "Only corpus models for which the python target yields an importable SDK; ParseError accepted for not well-formed input.",
           "deterministic simulation: caller-supplied stream with seeded short reads (chunk boundaries as the schedule), verdict-stability and round-trip oracles",
           "DESIGN.md section 3 (C10)"),
 ]
